@@ -97,6 +97,8 @@ pub struct Focus {
     pub captures: bool,   // C13 capture-only chains
     pub path_replay: bool, // C04 whole path through `position ... moves ...`
     pub fen_roots: bool,  // roots loaded through from_fen and compared
+    pub eval_purity: bool,     // C14 on the boards the producers build
+    pub pv_descriptor: bool,   // C18: the first PV move an info line would print for a root move is that move
     pub check_detection: bool, // C06 on the boards the three producers build (king cache as THEY set it)
     pub skip_kkx: bool,   // leave the Kk+X family to the sibling property that runs the same oracle on it
 }
@@ -105,14 +107,16 @@ impl Focus {
     pub fn for_property(p: &str) -> Focus {
         Focus {
             descriptor: p == "C02" || p == "C03",
-            applier: p == "C04" || p == "C06",
+            applier: p == "C04" || p == "C06" || p == "C14",
             keys: p == "C05" || p == "C04",
             captures: p == "C13",
-            path_replay: p == "C04" || p == "C06" || p == "C03",
+            path_replay: p == "C04" || p == "C06" || p == "C03" || p == "C14",
             fen_roots: true,
             // C03(a) is C02's printed-text oracle; C02 runs it on Kk+X, C03 spends the time on schedules instead
+            eval_purity: p == "C14",
+            pv_descriptor: p == "C18",
             check_detection: p == "C06",
-            skip_kkx: p == "C03" || p == "C06",
+            skip_kkx: p == "C03" || p == "C06" || p == "C14" || p == "C18",
         }
     }
 }
@@ -150,6 +154,27 @@ fn mv_class(pos: &Pos, m: &Mv) -> &'static str {
         "pawn-move"
     } else {
         "piece-move"
+    }
+}
+
+/// C14 on a board built by one of the producers: its evaluation equals that of the same position loaded from FEN
+fn reference_eval(pos: &Pos) -> Option<i32> {
+    let fen = pos.fen();
+    catch_unwind(|| BoardState::from_fen(&fen).ok().map(|b| crate::evaluation::get_evaluation(&b))).ok().flatten()
+}
+
+fn compare_eval(rep: &Report, board: &BoardState, pos: &Pos, reference: Option<i32>, producer: &str, ctx: J) {
+    let reference = match reference {
+        Some(v) => v,
+        None => return,
+    };
+    match catch_unwind(AssertUnwindSafe(|| crate::evaluation::get_evaluation(board))) {
+        Ok(v) => {
+            if v != reference {
+                rep.fail("C14", &format!("value-depends-on-how-the-position-was-reached/{}", producer.replace(' ', "-")), format!("{}: the board built by the {} evaluates to {}, the same position loaded from FEN to {}", pos.fen(), producer, v, reference), ctx.set("producer", J::s(producer)));
+            }
+        }
+        Err(e) => rep.fail("C14", "evaluation-panic", format!("{}: {}", pos.fen(), panic_text(e)), ctx),
     }
 }
 
@@ -328,7 +353,16 @@ impl<'a> Explorer<'a> {
                     }
                 };
                 if !oracle_moves.contains(&mv) || used.contains(&mv) {
-                    continue; // reported by the list comparison; nothing to compare the successor with
+                    // reported by the list comparison. If the successor IS the result of some legal move, its
+                    // descriptor names another move: that is C02's clause, and it is also what the first PV
+                    // move of an info line for this root move would show (C18)
+                    if let Some(sp) = pos_of_board(succ) {
+                        if let Some(real) = oracle_moves.iter().find(|m| pos.make(m).b == sp.b && !used.contains(m)) {
+                            rep.fail("C02", &format!("descriptor-names-another-move/{}", mv_class(pos, real)), format!("{}: the successor that results from {} carries the descriptor {}", pos.fen(), real.uci(), mv.uci()), self.edge_json(node, real, "descriptor names another move"));
+                            rep.fail("C18", "first-pv-move-of-a-root-move-is-not-that-move", format!("{}: an info line for the root move {} would start its pv with {}, which is {}", pos.fen(), real.uci(), mv.uci(), if oracle_moves.contains(&mv) { "another move" } else { "not a legal move" }), self.edge_json(node, real, "first pv move"));
+                        }
+                    }
+                    continue;
                 }
                 used.push(mv);
                 let want = pos.make(&mv);
@@ -341,6 +375,10 @@ impl<'a> Explorer<'a> {
                 if succ.zobrist_key != want_key {
                     rep.fail("C05", &format!("generator-key/{}{}", mv_class(pos, &mv), if pos.ep.is_some() { "/parent-has-ep-target" } else { "" }), format!("{} after {}: incremental key {} != scratch key {}", pos.fen(), mv.uci(), succ.zobrist_key, want_key), self.edge_json(node, &mv, "generator key vs scratch key"));
                     ok = false;
+                }
+                let ref_eval = if self.focus.eval_purity { reference_eval(&want) } else { None };
+                if self.focus.eval_purity {
+                    compare_eval(rep, succ, &want, ref_eval, "move generator", self.edge_json(node, &mv, "evaluation of the generated successor"));
                 }
                 if self.focus.check_detection {
                     compare_check_detection(rep, succ, &want, "move generator", self.edge_json(node, &mv, "is_check on the generated successor"));
@@ -363,11 +401,22 @@ impl<'a> Explorer<'a> {
                     }
                 }
                 if self.focus.applier {
-                    let text = mv.uci();
+                    // "every move the engine generates, printed as text and replayed, reproduces its own successor":
+                    // the text is what the engine's own printer prints for this successor
+                    let text = match self.printed(succ) {
+                        Ok(t) => t.split_whitespace().nth(1).unwrap_or("").to_string(),
+                        Err(_) => mv.uci(),
+                    };
+                    if text != mv.uci() {
+                        bump(l, "edges_whose_printed_text_differs_from_the_rules_text");
+                    }
                     let mut b2 = board.clone();
                     match catch_unwind(AssertUnwindSafe(|| crate::uci::verif_make_move(&mut b2, &text, h))) {
                         Err(e) => rep.fail("C04", &format!("applier-panic/{}", mv_class(pos, &mv)), format!("{} text move {}: {}", pos.fen(), text, panic_text(e)), self.edge_json(node, &mv, "text applier")),
                         Ok(()) => {
+                            if self.focus.eval_purity {
+                                compare_eval(rep, &b2, &want, ref_eval, "text-move applier", self.edge_json(node, &mv, "evaluation of the board the text applier built"));
+                            }
                             if self.focus.check_detection {
                                 compare_check_detection(rep, &b2, &want, "text-move applier", self.edge_json(node, &mv, "is_check on the board the text applier built"));
                             }
@@ -575,6 +624,9 @@ impl<'a> Explorer<'a> {
                                 self.rep.fail("C03", "go-after-this-position-command-misses-legal-moves", format!("'{}': {} root successors, {} legal moves", cmd, succs.len(), legal.len()), node.replay_json("root successors after a position command").set("command", J::s(&cmd)));
                             }
                         }
+                    }
+                    if self.focus.eval_purity {
+                        compare_eval(self.rep, &b, &node.pos, reference_eval(&node.pos), "position command", node.replay_json("evaluation of the board built by the position command").set("command", J::s(&cmd)));
                     }
                     if self.focus.check_detection {
                         // the board a whole `position ... moves ...` command builds carries the king cache of every
@@ -1003,6 +1055,12 @@ pub fn family_ep(mover: u8, only_file: i8) -> Vec<Pos> {
 /// the victim pawn and the victim's king on one line (victim between, nothing else between), plus one further
 /// piece of the checked side anywhere (the piece that may or may not be allowed to move afterwards).
 pub fn family_ep_discovered(mover: u8, only_file: i8) -> Vec<Pos> {
+    family_ep_discovered_with(mover, only_file, false)
+}
+
+/// `attacker_extra`: the further piece is a queen or rook of the CAPTURING side (mating nets) instead of a
+/// piece of the checked side
+pub fn family_ep_discovered_with(mover: u8, only_file: i8, attacker_extra: bool) -> Vec<Pos> {
     let mut out = Vec::new();
     let capturer = mover ^ 1;
     let (pawn_rank, target_rank) = if mover == rules::WHITE { (3i8, 2i8) } else { (4i8, 5i8) };
@@ -1044,13 +1102,15 @@ pub fn family_ep_discovered(mover: u8, only_file: i8) -> Vec<Pos> {
                             let mut b1 = base;
                             b1.b[ssq as usize] = rules::pc(capturer, sk);
                             b1.b[ksq as usize] = rules::pc(mover, rules::K);
-                            for xk in [rules::N, rules::B, rules::R, rules::Q, rules::P] {
+                            let extra_kinds: &[u8] = if attacker_extra { &[rules::R, rules::Q] } else { &[rules::N, rules::B, rules::R, rules::Q, rules::P] };
+                            let extra_color = if attacker_extra { capturer } else { mover };
+                            for &xk in extra_kinds {
                                 for xs in 0..64u8 {
-                                    if b1.b[xs as usize] != rules::EMPTY || !pawn_rank_ok(rules::pc(mover, xk), xs) {
+                                    if b1.b[xs as usize] != rules::EMPTY || !pawn_rank_ok(rules::pc(extra_color, xk), xs) {
                                         continue;
                                     }
                                     let mut b2 = b1;
-                                    b2.b[xs as usize] = rules::pc(mover, xk);
+                                    b2.b[xs as usize] = rules::pc(extra_color, xk);
                                     for &fk in &fixed_squares {
                                         if b2.b[fk as usize] != rules::EMPTY {
                                             continue;
@@ -1180,7 +1240,7 @@ pub struct E1Result {
 pub fn run(rep: &Report, focus: Focus) -> E1Result {
     let quick = rep.quick();
     // the oracle must reproduce the published perft totals before anything is believed
-    let (tests, nodes) = match rules::self_test(if quick || focus.check_detection { 1_300_000 } else { u64::MAX }) {
+    let (tests, nodes) = match rules::self_test(if quick || focus.check_detection || focus.eval_purity || focus.pv_descriptor { 1_300_000 } else { u64::MAX }) {
         Ok(x) => x,
         Err(e) => crate::report::machinery_error(&format!("oracle self-test failed: {}", e)),
     };
@@ -1199,7 +1259,7 @@ pub fn run(rep: &Report, focus: Focus) -> E1Result {
     let mut by_depth: BTreeMap<u16, Vec<Node>> = BTreeMap::new();
     for (n, d) in roots {
         // capture chains multiply the work below every state: the quick tier of C13 goes one ply less deep
-        let d = if (focus.captures || focus.check_detection) && quick { d.saturating_sub(1).max(1) } else { d };
+        let d = if (focus.captures || focus.check_detection || focus.eval_purity || focus.pv_descriptor) && quick { d.saturating_sub(1).max(1) } else { d };
         by_depth.entry(d).or_default().push(n);
     }
     for (d, group) in by_depth {
@@ -1268,7 +1328,7 @@ pub fn run(rep: &Report, focus: Focus) -> E1Result {
     );
     }
     // castling
-    {
+    if !focus.eval_purity {
         let mut items: Vec<Item> = Vec::new();
         for c in [rules::WHITE, rules::BLACK] {
             for ek in 0..64u8 {
@@ -1320,8 +1380,8 @@ pub fn run(rep: &Report, focus: Focus) -> E1Result {
             if quick { 0 } else { 1 },
         );
     }
-    // promotion (not needed for C06's producer pass)
-    if !focus.check_detection {
+    // promotion (not needed for C06's producer pass nor for C18's descriptor pass)
+    if !focus.check_detection && !focus.pv_descriptor {
         let mut items: Vec<Item> = Vec::new();
         let mut items_r: Vec<Item> = Vec::new();
         for c in [rules::WHITE, rules::BLACK] {
@@ -1331,7 +1391,9 @@ pub fn run(rep: &Report, focus: Focus) -> E1Result {
             }
         }
         run_family("promo (pawn one step from promotion, one king anywhere, one enemy piece anywhere)", items, if quick { 0 } else { 1 });
+        if !focus.eval_purity {
         run_family("promo+rights (as promo, enemy king and rook(s) at home with castling rights; followed one ply further so that castling right after a promotion occurs)", items_r, if quick { 1 } else { 2 });
+        }
     }
     if !quick && std::env::var("WMC_KKXY").is_ok() {
         let items: Vec<Item> = (0..64u32 * 64).map(|i| Box::new(move || family_kkxy((i / 64) as u8, (i % 64) as u8)) as Item).collect();
